@@ -8,7 +8,7 @@ import glob, json, os, shutil
 import vlib
 
 VF = ["Dag/DagTreeModel.v", "Dag/DagRecordModel.v", "Dag/DagProofs.v"]
-KNOWN_ID = "C18-other-cont-lost"
+KNOWN_ID = "C18-stat-edges-lost"
 CMAX_DEFAULT = 1 << 60          # dr_options_default_values.collapse_max of the pinned tree
 PRUNE_DEFAULT = 100000
 EK = ["end", "create", "create_cont", "wait_cont", "other_cont"]
@@ -268,8 +268,10 @@ def ints(s):
     return [int(x) for x in s.split(",")]
 
 
-def oracle_case(sets, impl_line):
-    """None if the property holds on this case's implementation output, else (message, known)"""
+def oracle_case(sets, impl_line, full_oc=False, full_end=False):
+    """None if the property holds on this case's implementation output, else (message, known).
+    full_oc / full_end: the library was probed to count other_cont / end edges completely, so these
+    kinds are demanded exactly too (otherwise they are the listed finding: may be lost, never invented)."""
     segs = split_impl(impl_line)
     if len(segs) != len(sets):
         return ("implementation produced %d results for %d settings: %s" % (len(segs), len(sets), impl_line[:200]), False)
@@ -310,17 +312,28 @@ def oracle_case(sets, impl_line):
         if int(st["dagnodes"]) != o["n"] + o["nodes"][1] + o["nodes"][0] + 1:
             return ("setting %s: .stat dag nodes = %s, expected %d" % (name, st["dagnodes"], o["n"] + o["nodes"][1] + o["nodes"][0] + 1), False)
         se = ints(st["sedges"])
-        if se[:4] != o["edges"][:4]:
-            return ("setting %s: .stat edge totals (end,create,create_cont,wait_cont)=%s, in the uncontracted DAG %s"
-                    % (name, se[:4], o["edges"][:4]), False)
-        # other_cont: candidate defect C18-other-cont-lost (dr_accumulate_stats never counts other -> next);
-        # guarded exactly like C18_edges_partial: the four other kinds are exact, other_cont may only be lost
-        if se[4] > o["edges"][4] or edges[4] > o["edges"][4]:
-            return ("setting %s: more other_cont edges reported (%d / %d) than the DAG has (%d)" % (name, se[4], edges[4], o["edges"][4]), False)
-        if int(st["mat"]) == o["n"] + o["nodes"][1] + o["nodes"][0] + 1 and se[4] != o["edges"][4]:
-            return ("setting %s: nothing contracted, yet .stat other_cont edges = %d, the DAG has %d" % (name, se[4], o["edges"][4]), False)
-        if se[4] != o["edges"][4] and others_lost is None:
-            others_lost = "setting %s: .stat reports %d other_cont edges, the uncontracted DAG has %d" % (name, se[4], o["edges"][4])
+        if se[1:4] != o["edges"][1:4]:
+            return ("setting %s: .stat edge totals (create,create_cont,wait_cont)=%s, in the uncontracted DAG %s"
+                    % (name, se[1:4], o["edges"][1:4]), False)
+        # candidate defects C18-stat-edges-lost (see notes/C18.md), guarded exactly like the _partial theorems:
+        #  - other_cont: dr_accumulate_stats never counts other -> next, so these edges vanish with every contracted
+        #    subgraph (and the root's logical count is always 0);
+        #  - end: the end edges of the tasks created in a contracted *section* are attributed to its parent's summary,
+        #    which the report does not use while the parent is materialised.
+        # The other kinds are exact; these two may only be lost, never invented, and never when nothing is contracted.
+        if edges[4] != (o["edges"][4] if full_oc else 0):
+            return ("setting %s: root other_cont count %d, expected %d" % (name, edges[4], o["edges"][4] if full_oc else 0), False)
+        for k, full in ((0, full_end), (4, full_oc)):
+            if full and se[k] != o["edges"][k]:
+                return ("setting %s: .stat reports %d %s edges, the uncontracted DAG has %d" % (name, se[k], EK[k], o["edges"][k]), False)
+            if se[k] > o["edges"][k]:
+                return ("setting %s: .stat reports %d %s edges, the DAG has only %d" % (name, se[k], EK[k], o["edges"][k]), False)
+            if int(st["mat"]) == int(st["dagnodes"]) and se[k] != o["edges"][k]:
+                return ("setting %s: nothing contracted, yet .stat %s edges = %d, the DAG has %d" % (name, EK[k], se[k], o["edges"][k]), False)
+            if int(a["mat"]) == 1 and k == 0 and se[k] != o["edges"][k]:
+                return ("setting %s: everything contracted, yet .stat end edges = %d, the DAG has %d" % (name, se[k], o["edges"][k]), False)
+            if se[k] != o["edges"][k] and others_lost is None:
+                others_lost = "setting %s: .stat reports %d %s edges, the uncontracted DAG has %d" % (name, se[k], EK[k], o["edges"][k])
     if others_lost:
         return (others_lost, True)
     return None
@@ -341,10 +354,12 @@ def correspondence(sets, impl_line, model_line):
     msegs = mparts[0].split(" | ")
     if len(segs) != len(sets) or len(msegs) != len(sets):
         return ["different number of results: impl %d model %d settings %d" % (len(segs), len(msegs), len(sets))]
-    for s, (A, st, evs), M in zip(sets, segs, msegs):
-        M = M.strip()
-        if s[6] >= 10:
-            A, M = totals_only(A), totals_only(M)
+    isegs = impl_line.split(" | ")
+    for s, iseg, M in zip(sets, isegs, msegs):
+        A = " ; ".join(x.strip() for x in iseg.split(" ; ")[:2])
+        M = " ; ".join(x.strip() for x in M.split(" ; ")[:2])
+        if s[6] >= 10:      # library defaults: the thresholds are not part of the model
+            A, M = totals_only(A.split(" ; ")[0]), totals_only(M.split(" ; ")[0])
         if A != M:
             bad.append("setting %s: impl [%s] model [%s]" % (s[0], A, M))
     # model-internal consistency (statements of the theorems, evaluated): totals under arbitrary
@@ -353,7 +368,7 @@ def correspondence(sets, impl_line, model_line):
         spec = parse_A(mparts[1])
         none = parse_A(mparts[2])
         for extra in mparts[3:]:
-            if totals_only(extra.replace("choice ", "")).strip() != totals_only(mparts[2].replace("none ", "")).strip():
+            if totals_only(extra.replace("choice ", "").split(" ; ")[0]).strip() != totals_only(mparts[2].replace("none ", "")).strip():
                 bad.append("model: totals under a contraction choice differ from the uncontracted ones")
         if spec.get("wf") != "1":
             bad.append("model: generated tree is not well nested")
@@ -365,11 +380,42 @@ def correspondence(sets, impl_line, model_line):
     return bad
 
 
-def run_cases(exe, drv, lines, workdir):
+def run_cases(exe, drv, lines, workdir, variant=(False, False)):
     os.makedirs(workdir, exist_ok=True)
     impl, rc1, raw1 = vlib.run_lines([exe, workdir], lines, timeout=900)
-    model, rc2, raw2 = vlib.run_lines([drv], lines, timeout=900)
+    model, rc2, raw2 = vlib.run_lines([drv, "1" if variant[0] else "0", "1" if variant[1] else "0"], lines, timeout=900)
     return impl, model, rc1, rc2
+
+
+# the two witnesses of finding C18-stat-edges-lost (known_findings.json); both use what a user gets
+# without touching any option (collapse_max = 2^60) against the uncontracted run
+W_END = "2 T S c 1 3 0 T e 3 6 0 w 3 5 0 e 6 7 1"
+W_OTHER = "2 T S c 1 3 0 T o 3 4 1 e 4 6 1 w 3 5 0 e 6 7 0"
+W_SETS = [("none", 0, 0, 0, PRUNE_DEFAULT, 0, 0), ("defaults", 0, CMAX_DEFAULT, 0, PRUNE_DEFAULT, 0, 10)]
+
+
+def probe(exe, workdir):
+    """which variant is the library?  returns (oc, fe, messages): oc = other_cont edges are counted by
+    dr_accumulate_stats; fe = the report keeps the end edges of contracted sections"""
+    os.makedirs(workdir, exist_ok=True)
+    lines = [case_line(int(w.split()[0]), W_SETS, w.split()[1:]) for w in (W_END, W_OTHER)]
+    impl, rc, raw = vlib.run_lines([exe, workdir], lines, timeout=120)
+    msgs = []
+    try:
+        e_none, e_def = [ints(st["sedges"]) for (A, st, evs) in split_impl(impl[0])]
+        o_segs = split_impl(impl[1])
+        o_root = ints(parse_A(o_segs[1][0])["edges"])
+        o_none, o_def = [ints(st["sedges"]) for (A, st, evs) in o_segs]
+    except (KeyError, IndexError, ValueError):
+        return False, False, ["probe could not be evaluated: " + raw[:300]]
+    fe = e_def[0] == e_none[0] == 1
+    oc = o_root[4] == 1 and o_def[4] == o_none[4] == 1
+    if not fe:
+        msgs.append("witness `%s`: .stat end-parent edges = %d uncontracted, %d with the default options" % (W_END, e_none[0], e_def[0]))
+    if not oc:
+        msgs.append("witness `%s`: .stat other-cont edges = %d uncontracted, %d with the default options (root summary: %d)"
+                    % (W_OTHER, o_none[4], o_def[4], o_root[4]))
+    return oc, fe, msgs
 
 
 def make_cases(ctx, n, sizes):
@@ -398,7 +444,8 @@ def corpus_cases(ctx):
 
 def judge(ctx, cases, exe, drv, broken, log, search=True):
     lines = [case_line(nw, sets, toks) for nw, sets, toks in cases]
-    impl, model, rc1, rc2 = run_cases(exe, drv, lines, os.path.join(ctx.dir, "run"))
+    oc, fe, probe_msgs = probe(exe, os.path.join(ctx.dir, "run"))
+    impl, model, rc1, rc2 = run_cases(exe, drv, lines, os.path.join(ctx.dir, "run"), (oc, fe))
     failing, known, diffs = [], [], []
     dist_size, dist_depth, dist_w, res_dist = {}, {}, {}, {"contracted_to_1": 0, "uncontracted": 0, "partial": 0}
     nsettings = 0
@@ -419,7 +466,7 @@ def judge(ctx, cases, exe, drv, broken, log, search=True):
                 res_dist["uncontracted"] += 1
             else:
                 res_dist["partial"] += 1
-        o = oracle_case(sets, il)
+        o = oracle_case(sets, il, full_oc=oc, full_end=fe)
         if o and o[1]:
             known.append((lines[i], il, o[0]))
         elif o:
@@ -429,7 +476,8 @@ def judge(ctx, cases, exe, drv, broken, log, search=True):
             diffs.append((lines[i], il, ml, d))
     ctx.cov["correspondence"] = {
         "cases": len(cases), "recordings": nsettings, "disagreements": len(diffs), "oracle_failures": len(failing),
-        "cases_showing_candidate_defect_other_cont": len(known),
+        "library_variant": {"other_cont_counted": oc, "end_edges_of_contracted_sections_reported": fe},
+        "cases_showing_finding_%s" % KNOWN_ID: len(known),
         "input_distribution": {"intervals": dist_size, "task_depth": dist_depth, "workers": dist_w},
         "impl_result_distribution": res_dist, "impl_exit": rc1, "model_exit": rc2}
     ctx.cov["evaluations"] = nsettings
@@ -445,10 +493,19 @@ def judge(ctx, cases, exe, drv, broken, log, search=True):
         "tools/props/c18.py: generator and the Python oracle (explicit DAG rebuilt from the hook stream)",
         "modelled, not verified: the instrumentation state machine that builds the tree from the calls (checked only by the "
         "correspondence run), 64-bit wrap of clock sums, est / t_ready / counters fields, dr_check debug assertions"]
-    if known:
-        ctx.notes.append("candidate defect %s reproduced on %d case(s), e.g. %s" % (KNOWN_ID, len(known), known[0][2]))
-        if any(f.get("id") == KNOWN_ID for f in vlib.known_findings("C18")):
-            ctx.known("%s: %s" % (KNOWN_ID, known[0][2]))
+    listed = any(f.get("id") == KNOWN_ID for f in vlib.known_findings("C18"))
+    if probe_msgs:
+        ctx.notes.append("finding %s present (model branch oc=%s fe=%s, oracle guarded for the affected edge kinds); "
+                         "also seen on %d generated case(s)" % (KNOWN_ID, oc, fe, len(known)))
+        if listed:
+            ctx.known("%s: .stat edge totals depend on contraction: %s" % (KNOWN_ID, "; ".join(probe_msgs)))
+        else:
+            ctx.violation("oracle", "edge totals of the .stat report depend on contraction: " + "; ".join(probe_msgs),
+                          {"case": case_line(2, W_SETS, (W_OTHER if oc is False else W_END).split()[1:]), "observed": "; ".join(probe_msgs),
+                           "expected": "the same edge totals by kind with and without contraction (property C18)",
+                           "level": "profiler public instrumentation API"}, found=True)
+    elif listed:
+        ctx.notes.append("finding %s is listed but no longer reproduces: full-strength oracle and the repaired model branch used" % KNOWN_ID)
     if failing:
         c, o, msg = min(failing, key=lambda f: len(f[0]))
         ctx.violation("oracle", msg, {"case": c, "observed": o[:4000], "expected": "see property C18: " + msg,
@@ -479,19 +536,21 @@ def judge(ctx, cases, exe, drv, broken, log, search=True):
         "interval lengths are non-negative (the clock does not run backwards) for the critical-path theorems",
         "sums of 64-bit clock differences do not wrap",
         "the execution is well nested: task ::= (section | other)* end, section ::= (section | create task | other)* wait",
-        "candidate defect (not in known_findings.json yet): other_cont edges are not counted in logical_edge_counts, so the "
-        "other-cont total of the .stat report depends on the contraction; C18_edges_partial / the oracle are guarded accordingly"])
+        "finding C18-stat-edges-lost: while it is present (probed on every run) the end / other_cont edge totals of the .stat "
+        "report are only required not to exceed the uncontracted DAG's and to be exact when nothing is contracted "
+        "(C18_edges_partial, C18_stat_edges_partial); once repaired the full-strength oracle and C18_edges / C18_stat_edges apply"])
 
 
 def search_failing(ctx, exe, drv):
     """after a correspondence break: look for an input on which the property itself fails"""
+    oc, fe, _ = probe(exe, os.path.join(ctx.dir, "run"))
     cases = make_cases(ctx, 150, [0, 0, 1, 1, 2])
     lines = [case_line(nw, sets, toks) for nw, sets, toks in cases]
     impl, rc, raw = vlib.run_lines([exe, os.path.join(ctx.dir, "run")], lines, timeout=900)
     best = None
     for i, (nw, sets, toks) in enumerate(cases):
         il = impl[i] if i < len(impl) else "<no output>"
-        o = oracle_case(sets, il)
+        o = oracle_case(sets, il, full_oc=oc, full_end=fe)
         if o and not o[1]:
             if best is None or len(lines[i]) < len(best[0]):
                 best = (lines[i], il, o[0])
@@ -516,7 +575,9 @@ def replay(ctx, path):
         print("no case in replay file (broken obligation: %s)" % body.get("theorem_or_correspondence"))
         return 0
     c = body["case"]
-    impl, model, _, _ = run_cases(exe, drv, [c], os.path.join(ctx.dir, "run"))
+    oc, fe, msgs = probe(exe, os.path.join(ctx.dir, "run"))
+    print("library variant: other_cont counted=%s, end edges of contracted sections reported=%s" % (oc, fe))
+    impl, model, _, _ = run_cases(exe, drv, [c], os.path.join(ctx.dir, "run"), (oc, fe))
     w = c.split()
     nset = int(w[1])
     sets = [("s%d" % k,) + tuple(int(x) for x in w[2 + 6 * k: 8 + 6 * k]) for k in range(nset)]
@@ -524,6 +585,6 @@ def replay(ctx, path):
     for k, seg in enumerate((impl[0] if impl else "").split(" | ")):
         print("impl  [%s]: %s" % (sets[k][0] if k < len(sets) else "?", seg[:1500]))
     print("model: ", model[0] if model else None)
-    print("oracle:", oracle_case(sets, impl[0] if impl else "<no output>"))
+    print("oracle:", oracle_case(sets, impl[0] if impl else "<no output>", full_oc=oc, full_end=fe))
     print("correspondence:", correspondence(sets, impl[0] if impl else "", model[0] if model else ""))
     return 0
